@@ -9,7 +9,11 @@ Local Open Scope list_scope.
 
 (* The full statement is Definition C11_full (Proofs/OverlayRestart.v):
      forall u ls nx ops, restart_same_view u ls nx ops.
-   It is NOT proved for all operations (see C11_restart_partial below for the proved class).
+   It does NOT hold for the code as it is: a client that sets one of the overlay's own opaque markers
+   (e.g. user.overlay.opaque) on a merged directory refutes it - see C11_refuted below, reproduced on
+   the implementation by every run (known finding "client-sets-opaque-marker").  For all other
+   operations of the model it is proved up to the order of directory entries
+   (C11_restart_partial_mkdir below).
    The two histories that refuted it before the fix: commits 7b264a9 and 2d8d33e are now instances of it:
    the re-created directory is opaque on disk, the unlinked shadowing file leaves a whiteout. *)
 Example C11_fixed_mkdir_over_whiteout :
@@ -25,6 +29,18 @@ Example C11_fixed_unlink_shadowing_file :
   upper s = Some (Dir 493 [] [("c", Wh)]).
 Proof. exact witness_unlink. Qed.
 
+(* SETXATTR of an opaque marker on a merged directory: written to the upper directory, the cached node
+   is kept (sync_io.rs: "TODO: recreate node since setxattr may made dir opaque"); the live instance
+   goes on showing the lower children, a freshly started one hides them. *)
+Example C11_opaque_marker_witness :
+  let s := run_dumps w3_ops (load_all (fresh (Some w3_upper) [w3_lower] 1000)) in
+  ser_opt (view (load_all s)) = "d1ed(d=d1ed(n=f1a4:6e,o=f1a4:6f,),)" /\
+  ser_opt (view (load_all (restart s))) = "d1ed(d=d1ed(n=f1a4:6e,),)" /\
+  upper s = Some (Dir 493 [] [("d", Dir 493 [("user.overlay.opaque", [121])] [("n", File 1 420 [110] [])])]).
+Proof. exact witness_opaque_marker. Qed.
+Theorem C11_refuted : ~ C11_full.
+Proof. exact C11_full_refuted. Qed.
+
 (* Restart equivalence, proved part: for ALL layer contents (layer roots are directories with
    distinct names per directory) and all histories made of
      lookup, getattr, readdir, read, readlink, open(O_RDONLY), getxattr, listxattr
@@ -38,13 +54,19 @@ Proof. exact restart_partial. Qed.
 Theorem C11_coherent_restart : forall s, Coherent s -> oteq (view (load_all (restart s))) (view (load_all s)).
 Proof. exact coherent_restart. Qed.
 (* ... hence for all layer contents and all histories over the operations of [coh_op]
-   (the read-only ones, MKDIR, CREATE, MKNOD, SYMLINK, UNLINK, RMDIR, OPEN with every flag, WRITE, CHMOD,
-   TRUNCATE, SETXATTR / REMOVEXATTR of names other than the opaque markers; not LINK; with or without
-   tree walks in between): *)
+   (the read-only ones, MKDIR, CREATE, MKNOD, SYMLINK, LINK, UNLINK, RMDIR, RENAME (always refused), OPEN
+   with every flag, WRITE, CHMOD, TRUNCATE, SETXATTR / REMOVEXATTR of names other than the opaque
+   markers - i.e. everything outside the class of C11_refuted; with or without tree walks in between): *)
 Theorem C11_restart_partial_mkdir : forall u ls nx ops, Forall layer_ok (u :: ls) -> coh_history ops = true ->
   let s := run_dumps ops (load_all (fresh (Some u) ls nx)) in
   oteq (view (load_all (restart s))) (view (load_all s)).
 Proof. exact restart_coherent_history. Qed.
+(* the same in the form of C11_full: equal serialisations ([ser] lists the entries of a directory sorted by
+   name; [teq] trees serialise alike: Proofs/OverlayCohSteps.v teq_ser).  So C11_full holds for every history
+   over [coh_op], from every fresh overlay over well-formed layers; it fails only in the class of C11_refuted. *)
+Theorem C11_restart_coh_history : forall u ls nx ops, Forall layer_ok (u :: ls) -> coh_history ops = true ->
+  restart_same_view (Some u) ls nx ops.
+Proof. exact restart_same_view_history. Qed.
 Example C11_restart_partial_nonvacuous :
   let u := Dir 493 [] [("d", Dir 493 [] [("n", File 1 420 [] [])]); ("w", Wh)] in
   let l := Dir 493 [] [("d", Dir 448 [] [("o", File 2 420 [] [])]); ("w", Lnk [97])] in
@@ -52,6 +74,19 @@ Example C11_restart_partial_nonvacuous :
   readonly_history [(false, OLookup ["d"; "o"]); (true, OReaddir ["d"]); (false, ORead ["d"; "n"] 0 4)] = true.
 Proof.
   cbv zeta. split; [|reflexivity].
+  repeat (first [apply Forall_cons | apply Forall_nil | split | apply wf_dir | apply wf_file | apply wf_lnk | apply wf_wh
+                | apply NoDup_cons | apply NoDup_nil | (cbn; intuition discriminate) | reflexivity ]).
+Qed.
+
+Example C11_restart_coh_nonvacuous :
+  let u := Dir 493 [] [("d", Dir 493 [] [("n", File 1 420 [] [])]); ("w", Wh)] in
+  let l := Dir 493 [] [("d", Dir 448 [] [("o", File 2 420 [] [])]); ("w", Lnk [97])] in
+  let ops := [(false, OUnlink ["d"; "o"]); (true, OUnlink ["d"; "n"]); (false, ORmdir ["d"]); (true, OMkdir ["d"] 448);
+              (false, OSymlink ["w"] [100]); (true, OLink ["w"] ["d"; "l"]); (true, OWrite ["d"; "l"] 0 [1])] in
+  Forall layer_ok [u; l] /\ coh_history ops = true /\
+  ser_opt (view (load_all (run_dumps ops (load_all (fresh (Some u) [l] 1000))))) = "d1ed(d=d1c0(l=l:64,),w=l:64,)".
+Proof.
+  cbv zeta. split; [|split; [reflexivity|vm_compute; reflexivity]].
   repeat (first [apply Forall_cons | apply Forall_nil | split | apply wf_dir | apply wf_file | apply wf_lnk | apply wf_wh
                 | apply NoDup_cons | apply NoDup_nil | (cbn; intuition discriminate) | reflexivity ]).
 Qed.
@@ -110,6 +145,8 @@ Print Assumptions C11_restart_shows_union.
 Print Assumptions C11_copy_up_preserves_file.
 Print Assumptions C11_copy_up_preserves_symlink.
 Print Assumptions C11_copy_up_preserves_dir.
+Print Assumptions C11_refuted.
 Print Assumptions C11_restart_partial.
 Print Assumptions C11_coherent_restart.
 Print Assumptions C11_restart_partial_mkdir.
+Print Assumptions C11_restart_coh_history.
